@@ -52,7 +52,11 @@ Q5 == <<Q(1,9), Q(4,9), Q(-8,9), Z0>>
 Q6 == <<Q(-2,11), Q(6,11), Q(9,11), Z0>>
 Q7 == <<Q(2,15), Q(5,15), Q(-14,15), Z0>>
 Q8 == <<Q(1,2), Q(-1,2), Q(-1,2), Q(-1,2)>>
-Quats == IF Wide THEN {Q1, Q2, Q3, Q4, Q5, Q6, Q7, Q8} ELSE {Q1, Q2, Q3, Q4}
+\* general axes with components of either sign (the axis / angle clause needs rotations that are not about a coordinate axis)
+Q9 == <<Q(2,3), Q(-1,3), Q(-2,3), Z0>>   Q10 == <<Q(4,9), Q(1,9), Q(-8,9), Z0>>
+Q11 == <<Q(2,5), Q(-1,5), Q(-2,5), Q(4,5)>>   Q12 == <<Q(6,11), Q(2,11), Q(-9,11), Z0>>
+Q13 == <<Q(4,7), Q(-2,7), Q(5,7), Q(-2,7)>>   Q14 == <<Q(1,3), Q(2,3), Q(-2,3), Z0>>
+Quats == {Q1, Q2, Q3, Q4, Q5, Q6, Q7, Q8, Q11, Q13, <<Q(2,3), Q(-1,3), Q(-2,3), Z0>>, <<Q(1,3), Q(-2,3), Q(2,3), Z0>>, <<Q(4,9), Q(1,9), Q(-8,9), Z0>>}
 Pool2 == [ Homogeneous |-> {H3(R(1),R(2),R(0), R(0),R(1),R(1), Q(1,10),R(0),R(1)), H3(R(2),R(0),R(1), R(1),R(1),R(0), R(0),Q(1,4),R(2))},
            Affine |-> {M3(R(2),R(1),R(3), R(-1),R(3),R(0)), M3(Q(1,2),R(2),R(-1), R(0),R(4),Q(3,2))},
            Similarity |-> {M3(Q(6,5),Q(-8,5),R(1), Q(8,5),Q(6,5),R(-2)), M3(R(0),R(-3),R(2), R(3),R(0),R(5))},
